@@ -50,7 +50,7 @@ CHECKS = {
          "Known finding D9 (geo 0.27 boolean ops panic / hang / wrong region) is excused only for inputs that satisfy the objective degeneracy predicate (a vertex within 1e-4 of an edge of another box); general-position inputs are never excused.", "3/C15"),
  "C17": ("exploration", "property-based testing: reference re-implementation of the counting rules, all permutations of small streams",
          "Generated streams for TopN / BestFit / Hungarian voting checked against an f64 re-implementation written from the statement; validity under ties; order independence under random permutations and under all n! permutations of 2..5-item streams.",
-         "Weights within 1e-6 relative; weights closer than 1e-3 count as ties.", "3/C17"),
+         "Weights within 1e-6 relative + 3.4e-6 of the largest distance magnitude (f32 differences summed); closer weights count as ties. Metric units 1e-8..1e4, query/track ids from disjoint or shared id spaces, N up to usize::MAX.", "3/C17"),
  "C20": ("exploration", "exhaustive enumeration of constraint tables and probes vs reference lookup",
          "Every table over <=3 configured gaps in 0..8 x 5 limits, with duplicates and insertion orders, probed at gaps 0..10 x 32 distances (each limit +-2 ulp) against 'limit of the smallest configured gap >= d, first insertion wins'; monotone in distance; builder = add_constraints. Tracker level: binding tables (every continuation admitted by the reference lookup, optimal among admitted pairs) and non-binding tables (limits 1e6) = unconstrained run, bit-equal up to ids.",
          "Table level is exhaustive for the enumerated space only; tracker level is sampled.", "3/C20"),
@@ -58,11 +58,11 @@ CHECKS = {
          "Generated-input search (proptest, shrinking) over constructed pair configurations against an independent f64 geometry kernel with stated tolerances, plus symmetry/range/identity/rigid-motion relations and the soundness of the too_far pre-filter. Held-on-everything-explored, not a proof.",
          "Trusts oracle/geom.rs (self-checked for symmetry per case); tolerances 1e-4 of the smaller area (+ eps64*coord^2 term for the absolute-coordinate clipper), IoU 2e-4; touching configurations three-valued.", "3/C08"),
  "C16": ("exploration", "property-based testing: exhaustive over vector lengths 0..=130, random values, scalar f64 reference and algebraic relations",
-         "Every length 0..=130 is enumerated with random values; round trip compared bit-exactly with zero padding; distances against scalar f64 formulas on the common packed prefix; symmetry, identity, triangle inequality, cosine range/parallel/opposite/scale relations.",
+         "Every length 0..=130 (plus 247..4099: the usual embedding sizes and their neighbours) is enumerated with random dense and sparse values, the round trip also with arbitrary finite bit patterns and through both the by-reference and by-value conversion; round trip compared bit-exactly with zero padding; distances against scalar f64 formulas on the common packed prefix; symmetry, identity, triangle inequality, cosine range/parallel/opposite/scale relations.",
          "Empty vector may pack to 0 or 8 zeros (statement does not pin it): either reading accepted consistently per case. Relative tolerance 1e-4.", "3/C16"),
  "C18": ("translation_validation", "differential property testing (Hypothesis): generated API scripts executed through the Python module built from the current tree and through the Rust API; traces compared exactly",
          "Hypothesis-generated scripts (boxes with every getter/setter, clipping, nms, three Kalman filters, constraints, the four trackers incl. expiry-boundary probes, histories, batch requests/results; optional constructor arguments individually omitted) run through `similari.so` built by cargo from /repo's working tree and through a Rust driver calling the wrapped API with the documented defaults; traces must be identical (batch ids up to renaming). Failures are shrunk by Hypothesis and saved as replay.",
-         "The defaults table in the driver is the reference for 'documented defaults'. Tie-free tracker inputs by construction (well separated objects). Python: python3-vt (hypothesis 6.168).", "3/C18"),
+         "A script on which the Rust driver answers and the Python side does not return within 60 s (GIL-independent watchdog) is a violation only after it reproduced twice in fresh interpreter processes, otherwise inconclusive. The defaults table in the driver is the reference for 'documented defaults'. Tie-free tracker inputs by construction (well separated objects). Python: python3-vt (hypothesis 6.168).", "3/C18"),
  "C19": ("exploration", "property-based testing: round trips, polygon vs reference rotation, equality relation laws across the EPS boundary",
          "Generated boxes over 1e-2..1e4: ltwh<->universal round trip within ulps, polygon vertices/area/centre/radius against the reference rotation, equality reflexive/symmetric/threshold-correct for single-coordinate perturbations in both argument orders, normalize_angle range and equivalence.",
          "Equality threshold is three-valued inside [0.9,1.1] EPS. Trusts f64 sin/cos.", "3/C19"),
